@@ -113,7 +113,7 @@ def twin(ctx, Model, spec, scripts, opts, a, b, a_label, b_label, case):
             ctx.violation('iter-periods', f'iter_periods({kw}) yields {pairs[:8]} (len() = {len(it[1])}); the periods from start to end inclusive are {periods}', case)
             return
     ra = call(A.solve, **kw, **opts)
-    if opts['min_iter'] > opts['max_iter']:
+    if opts.get('min_iter', 0) > opts.get('max_iter', 100):
         rb = ('exc', 'ValueError', None)
     else:
         flags = []
@@ -168,6 +168,12 @@ def option_set(rng):
         o['min_iter'] = o['max_iter'] + 1
     if rng.random() < 0.3:
         o[rng.choice(['note', 'scenario', 'label', 'index', 'name', 'verbose', 'key'])] = rng.choice([7, 'x', None, 0])    # a user keyword: forwarded to every hook and pass
+    if rng.random() < 0.3:
+        # options left out: each entry point then falls back on its own default, and "the same options" includes those
+        for k in rng.sample(['min_iter', 'max_iter', 'tol', 'failures', 'errors', 'catch_first_error'], rng.randint(1, 6)):
+            if k == 'max_iter' and o.get('min_iter', 0) > 100:
+                continue
+            o.pop(k, None)
     return o
 
 
@@ -218,8 +224,8 @@ def run_shard(ctx):
                         scripts = random_scripts(rng, n, i, rng.choice(['warn', 'nan', 'pinf', 'exc', 'nonconv'])) if rep % 2 else random_scripts(rng, n)
                         case = dict(span_kind=spec.kind, n=n, period=i, label=repr(lab), opts=opts, scripts={str(k): v for k, v in scripts.items()})
                         ctx.evaluation(case, nontrivial=True, sample=case)
-                        A = make(Model, spec, scripts, opts['tol'])
-                        B = make(Model, spec, scripts, opts['tol'])
+                        A = make(Model, spec, scripts, opts.get('tol', 0.5))
+                        B = make(Model, spec, scripts, opts.get('tol', 0.5))
                         ra = call(A.solve_period, lab, **opts)
                         rb = call(B.solve_t, i, **opts)
                         ctx.count('solve_period_twins')
